@@ -270,6 +270,14 @@ def run(ctx):
             if s["k"] == "assign":
                 for pl in mir.rv_places(s["rv"]):
                     if any(e["k"] == "index" for e in pl["proj"]) and "values::Value" in f.local_ty(pl["local"]):
+                        lt_ = (f.local_ty(pl["local"]) or "").replace("&mut ", "").replace("&", "").strip()
+                        if not (lt_.startswith("[values::Value<") or lt_.startswith("std::vec::Vec<values::Value<")):
+                            continue        # (an array of names, of functions returning values, ...: not the storage of a Scheme vector)
+                        from . import bounds as _bounds2
+                        prs_ = [p_ for p_ in f.preds().get(b, ()) if not f.blocks[p_]["cleanup"]]
+                        if len(prs_) == 1 and f.blocks[prs_[0]]["term"]["k"] == "assert" and f.blocks[prs_[0]]["term"].get("kind") == "BoundsCheck" \
+                                and _bounds2.bounds_check_holds(f, prs_[0], f.blocks[prs_[0]]["term"]):
+                            continue        # (the index is below the length by a dominating test)
                         ctx.report("C08-vector", "%s/index-projection" % f.name, "%s indexes value storage with `[]`" % f.name,
                                    where_of(f, span=s["span"]))
     d_vec = evaltables.rule_vector(ctx, "C08-vector")
@@ -589,7 +597,11 @@ def _div_zero_shape_rule(ctx, fb):
     # decision table of check_division_by_zero
     cz = fb.find("values::check_division_by_zero")
     for v in (-3, 0, 5):
-        kind, b, env = absint.run_fragment(cz, 0, {1: v}, oracle=lambda *a: None)
+        try:
+            kind, b, env = absint.run_fragment(cz, 0, {1: v}, oracle=lambda *a: None)
+        except (absint.Stuck, absint.Loop) as e:
+            ctx.undecided("C08-vector", "check_division_by_zero/table", "cannot follow check_division_by_zero(%d): %s" % (v, e), where_of(cz))
+            continue
         r = env.get(0)
         res = getattr(r, "name", "?")
         ctx.inst("C08-vector", "check_division_by_zero(%d)" % v, {"result": res})
@@ -760,4 +772,4 @@ def no_swallow(ctx, fb):
             ctx.inst("C08-no-swallow", "%s<-%s" % (owner, (callee(t) or "indirect").rsplit("::", 1)[-1]), None, nontrivial=False)
     ctx.extra_cov["result_sites_examined"] = n
     if n < 150:
-        ctx.report("C08-no-swallow", "floor", "only %d Result<_, SchemeError> producing calls found (expected > 150)" % n)
+        ctx.undecided("C08-no-swallow", "floor", "only %d Result<_, SchemeError> producing calls found (expected > 150)" % n)
